@@ -34,7 +34,7 @@ func init() {
 			}}},
 		Quick:    200000,
 		Thorough: 3000000,
-		Require:  []string{"requests.concurrentlyOutstanding", "token.differsOnlyInLeadingZeros", "token.collision", "msg.dup", "msg.forged", "blockwise.continuationServed", "middleware.resumedAfterAppWasDone"},
+		Require:  []string{"requests.concurrentlyOutstanding", "token.differsOnlyInLeadingZeros", "token.collision", "msg.dup", "msg.forged", "blockwise.continuationServed", "middleware.resumedAfterAppWasDone", "ping.nextToRequests"},
 		Assume: []string{
 			"on datagram transports the scripted peer emits a separate response only after its empty ACK was delivered (the lost/overtaken-ACK case is C06's known finding and is kept out of this check)",
 			"a second request invoked after the first one's answer was already handed to the connection may be accepted or rejected (A.1)",
@@ -71,6 +71,12 @@ func c03Run(e *Env) {
 	ackTO := 2 * time.Second
 	collisions := t.Chance(1, 2)
 	parks := t.Choose(3)
+	// responses and requests are pooled objects (the default configuration recycles them): what one caller was given
+	// must not be what another one is given
+	if pc := []uint32{0, 2, 1024}[t.Choose(3)]; e.PoolCapacity == 0 && pc > 0 {
+		e.PoolCapacity = pc
+		e.Probe("pool.recycling")
+	}
 
 	var w *CWorld
 	switch {
@@ -202,6 +208,16 @@ func c03Run(e *Env) {
 		if IsDatagram(tr) && (m.Type == TACK || m.Type == TRST) {
 			return
 		}
+		if !IsDatagram(tr) && m.Code == 0xe2 {
+			// keep-alive traffic next to the requests: the peer answers a ping with a pong
+			w.Queue(&WMsg{Code: 0xe3, Token: m.Token}, "pong")
+			return
+		}
+		if IsDatagram(tr) && m.Code == 0 && m.Type == TCON {
+			it := w.Queue(&WMsg{Type: TRST, Code: 0, MID: m.MID}, "pong(reset)")
+			it.NoDup = true
+			return
+		}
 		if m.Code == 0 || m.Code > 4 {
 			return
 		}
@@ -298,6 +314,8 @@ func c03Run(e *Env) {
 	}
 
 	nextNonce := 0
+	pings := 0
+	var pingCalls []*Call
 	checked := map[*c03Req]bool{}
 	ticks := 0
 	for e.Budget() {
@@ -390,6 +408,10 @@ func c03Run(e *Env) {
 					}
 					r.invokedPhase = e.Phase()
 					r.call = e.NewCall(fmt.Sprintf("req%d", r.nonce), r.nonce, nil, 200*time.Second)
+					r.call.ReadLater = t.Choose(3)
+					r.call.OnChanged = func(was, now *RespInfo) {
+						e.Violate("C03.R2", "response-changed-in-callers-hands", "request n=%d returned %s; when the caller read it again before releasing it, it was %s", r.nonce, was, now)
+					}
 					reqs = append(reqs, r)
 					current[c] = r
 					path := fmt.Sprintf("/r%d", r.nonce%3)
@@ -434,6 +456,16 @@ func c03Run(e *Env) {
 			}
 			e.Fault("msg.forged")
 			w.Queue(&WMsg{Type: TNON, Code: 0x45, MID: w.NextPeerMID(), Token: tok, Payload: []byte("forged")}, label)
+		}
+		if pings < 2 {
+			evs = append(evs, Event{Label: "ping", W: 1, Do: func() {
+				pings++
+				pc := e.NewCall(fmt.Sprintf("ping%d", pings), -1, nil, 200*time.Second)
+				pingCalls = append(pingCalls, pc)
+				e.Logf("a caller pings the peer")
+				e.Probe("ping.nextToRequests")
+				e.Start(pc, func(ctx context.Context) (*pool.Message, error) { return nil, w.API.Ping(ctx) }, nil)
+			}})
 		}
 		if running > 0 && ticks < 6 {
 			evs = append(evs, Event{Label: "tick", W: 1, Do: func() {
@@ -487,6 +519,11 @@ func c03Run(e *Env) {
 				e.Violate("C03.R4", "answered-request-never-completed", "request n=%d: its answer was handed to the connection in phase %d but the call has not returned", r.nonce, r.answeredAt)
 			}
 			e.CancelCall(r.call)
+		}
+	}
+	for _, pc := range pingCalls {
+		if !pc.Done() {
+			e.CancelCall(pc)
 		}
 	}
 	e.Wait()
